@@ -257,6 +257,8 @@ def mx_parent(parts, e):
     """Parent-level expression: St(s, e) evaluates e on stage s."""
     o = e['op']
     if o == 'c': return ca.MX(fl(e['v']))
+    if o == 'pw': return parts[0].ocp._verif_pw
+    if o == 'pq': return parts[0].ocp._verif_pq
     if o == 'st':
         p = parts[e['s'] - 1]
         return mx(p, e['a'], p.stage)
@@ -274,6 +276,10 @@ def build_multi(md, solver='ipopt'):
     buf = io.StringIO()
     with contextlib.redirect_stdout(buf):
         ocp = Ocp(); B.ocp = ocp
+        if md.get('pown'):
+            # declared in this order on purpose: the variable before the parameter
+            ocp._verif_pw = ocp.variable(); ocp._verif_pq = ocp.parameter()
+            ocp.set_value(ocp._verif_pq, fl(md['stages'][0]['pq']))
         if md.get('clone'):
             d1 = md['stages'][0]
             tb = Built(); tb.ocp = ocp
